@@ -126,12 +126,19 @@ impl Preprocessor {
         // this needs an explicit err map.
         let parsed: Vec<Rc<SExp>> = parse_sexp(start_of_file.clone(), content.iter().copied())
             .err_into()
-            .and_then(|x| match x[0].proper_list() {
-                None => Err(CompileErr(
-                    start_of_file,
-                    "Includes should contain a list of forms".to_string(),
-                )),
-                Some(v) => Ok(v.iter().map(|x| Rc::new(x.clone())).collect()),
+            .and_then(|x| {
+                // A file holding no form at all (empty, or only comments)
+                // includes nothing.
+                if x.is_empty() {
+                    return Ok(vec![]);
+                }
+                match x[0].proper_list() {
+                    None => Err(CompileErr(
+                        start_of_file,
+                        "Includes should contain a list of forms".to_string(),
+                    )),
+                    Some(v) => Ok(v.iter().map(|x| Rc::new(x.clone())).collect()),
+                }
             })?;
 
         if self.strict {
